@@ -61,8 +61,13 @@ func (p *players) Len() int {
 
 // Range loops through the player list.
 func (p *players) Range(fn func(p Player) bool) {
+	// Iterate a snapshot taken under the lock: the map is written by joins and
+	// leaves, and fn may itself add or remove players.
 	p.mu.RLock()
-	list := p.list
+	list := make([]*connectedPlayer, 0, len(p.list))
+	for _, player := range p.list {
+		list = append(list, player)
+	}
 	p.mu.RUnlock()
 	for _, player := range list {
 		if !fn(player) {
